@@ -3,6 +3,7 @@ pub mod c15;
 pub mod c15_text;
 pub mod c15_bin;
 pub mod c07;
+pub mod c07_enc;
 pub mod c08;
 pub mod c08_tok;
 pub mod c08_order1;
